@@ -169,6 +169,7 @@ def expected_fingerprint(spec, with_defaults=True) -> dict:
           "redef": {}}
     for sp, n in t.spellings().items():
         fp["names"][sp] = n
+    fp["symbols"] = {n: (t.units[n].get("symbol") or n) for n in t.order}
     for n in t.order:
         u = t.units[n]
         f, d = t.root_of_unit(n)
@@ -236,6 +237,7 @@ def take_fingerprint(ureg, spec, num, full=True) -> dict:
 
     for sp in t.spellings():
         fp["names"][sp] = guard(lambda: ureg.get_name(sp))
+    fp["symbols"] = {n: guard(lambda: ureg.get_symbol(n)) for n in t.order}
     for n in t.order:
         u = t.units[n]
 
